@@ -62,6 +62,11 @@ class C07(Prop):
             cs.append({"name": "known-" + nm, "sticky": 1, "known_key": "C07:" + S.KEY_GEOM,
                        "ops": ["file ext=fa hex=" + hx(f), "open fmt=fasta abc=text B=4096", "read", "read", "read", "index",
                                "fetchsub key=%s s=%d e=%d" % (hx(k.encode()), s, e)]})
+        # regression (50dd524): a letter outside the digital alphabet inside the requested record: eslEFORMAT from all three calls
+        cs.append({"name": "fetch-illegal-residue", "sticky": 1, "meta": {"fetchspike": {"a": "ACE", "b": "ACGTAEGT"}},
+                   "ops": ["file ext=fa hex=" + hx(b">a\nACE\n>b\nACGT\nAEGT\n"), "open fmt=fasta abc=dna B=4096", "index", "fetchsub key=61 s=1 e=3", "close",
+                           "open fmt=fasta abc=dna B=3", "index", "fetchsub key=62 s=5 e=8", "close", "open fmt=fasta abc=rna B=7", "index", "fetch key=62", "close",
+                           "open fmt=fasta abc=dna B=2", "index", "fetchinfo key=61", "close", "open fmt=fasta abc=text B=4096", "index", "fetchsub key=62 s=5 e=8"]})
         return cs
 
     def cases(self, ctx):
